@@ -16,6 +16,7 @@ int eng_fork_run(void (*fn)(void *), void *ud, const char *stderr_path, int time
   shared_page_t *sp = sim_shared;
   memset((void *)sp, 0, sizeof *sp);
   sp->operands_intact = -1;
+  ((char *)SIM_SHARED_EXT)[200000] = 0; /* engine note area (e.g. call chain of a leaked block) */
   eng_forks++;
   pid_t pid = fork();
   if (pid < 0) return -1;
@@ -86,4 +87,17 @@ double eng_now(void) {
   struct timespec ts;
   clock_gettime(CLOCK_MONOTONIC, &ts);
   return (double)ts.tv_sec + 1e-9 * (double)ts.tv_nsec;
+}
+
+char eng_top_lib_frame[128];
+void eng_find_lib_frame(const char *errpath) { /* first stack frame inside library code of a sanitizer report */
+  eng_top_lib_frame[0] = 0;
+  FILE *f = fopen(errpath, "r");
+  if (!f) return;
+  char line[600];
+  while (fgets(line, sizeof line, f)) {
+    char fnm[128];
+    if (strstr(line, "/inc/m4ri/") && sscanf(line, " #%*d 0x%*x in %127s", fnm) == 1) { snprintf(eng_top_lib_frame, sizeof eng_top_lib_frame, "%s", fnm); break; }
+  }
+  fclose(f);
 }
